@@ -2,7 +2,7 @@
 import json
 import os
 
-from gen.progs import gen_builtin_program, gen_layout_program, gen_order_program, gen_program, layout_search_programs
+from gen.progs import gen_builtin_program, gen_infer_program, gen_layout_program, gen_order_program, gen_program, layout_search_programs
 from gen.rng import Rng
 from lib.e2e import run_pipeline, same_behaviour
 from lib.vlib import WORK, Check, build_harness, check_props, coq_eval, coq_result, vh
@@ -197,7 +197,7 @@ def run(tier, seed, replay=None):
         for i in range(n):
             r = rng.fork()
             opts = {'big': i % 7 == 0, 'nfun': 4 + i % 3, 'depth': 2 + i % 3}
-            progs.append(gen_builtin_program(r) if i % 12 == 4 else gen_order_program(r) if i % 12 == 7 else gen_layout_program(r) if i % 3 == 2 else gen_program(r, opts))
+            progs.append(gen_builtin_program(r) if i % 12 == 4 else gen_order_program(r) if i % 12 == 7 else gen_infer_program(r) if i % 12 == 10 else gen_layout_program(r) if i % 3 == 2 else gen_program(r, opts))
     ck.rule = ('generated well-typed programs (recursive/generic enums, structs, interfaces with bounded generics, closures, tuples, '
                'nested and or-patterns, tail/non-tail recursion, Str/Vec/Process builtins) with inputs fed through Str.toInt; '
                'distinct = distinct program text; non-trivial = accepted, compiled and compared (run not excluded)')
